@@ -289,7 +289,12 @@ func leafValue(kind string, id int) (reflect.Value, string, interface{}) {
 	case "f64":
 		return reflect.ValueOf(float64(id) + 0.5), fmt.Sprintf("%d.5", id), float64(id) + 0.5
 	case "dur":
-		return reflect.ValueOf(time.Duration(id) * time.Second), fmt.Sprintf("%ds", id), fmt.Sprintf("%ds", id)
+		// odd ids: a duration whose nanosecond count (2^53 + id, odd) is not exactly representable as a float64
+		d := time.Duration(id) * time.Second
+		if id%2 == 1 {
+			d = time.Duration(1<<53 + int64(id))
+		}
+		return reflect.ValueOf(d), d.String(), d.String()
 	case "strs":
 		v := []string{fmt.Sprintf("a%d", id), fmt.Sprintf("b,%d", id)}
 		return reflect.ValueOf(v), fmt.Sprintf(`"a%d","b,%d"`, id, id), []interface{}{v[0], v[1]}
@@ -857,7 +862,8 @@ func (r *srcRun) docTree(format string) (map[string]interface{}, bool) {
 			}
 			_, _, doc := leafValue(f.Kind, f.ID)
 			if f.Kind == "dur" && (format == "json" || format == "cue") && (r.c.Seed+f.ID)%2 == 1 {
-				doc = int64(time.Duration(f.ID) * time.Second) // integer nanoseconds
+				dv, _, _ := leafValue("dur", f.ID)
+				doc = int64(dv.Interface().(time.Duration)) // integer nanoseconds
 			}
 			var empty interface{} = []interface{}{}
 			if f.Kind == "smap" || f.Kind == "nmap" || f.Kind == "mnamed" || f.Kind == "knamed" {
